@@ -200,7 +200,56 @@ MUTANTS = [
       "    def get_readonly_uri(self):\n        return self.ro_uri\n",
       "    def get_readonly_uri(self):\n        return self.ro_uri or self.rw_uri\n", "C18.9",
       note="an unknown child given only in the rw slot would be stored in clear"),
+    # ---- C18.10 what an UnknownNode lets into its (clear) ro slot (= C16.11 / C16.12, adopted after seeded C18-F)
+    M("unknown-refusal-falls-through", UN,
+      "                                                         name, False)\n                    return  # node will be opaque\n",
+      "                                                         name, False)\n", "C18.10",
+      note="seeded C18-F: the early return after recording MustNotBeUnknownRWError is lost; the unprefixed cap moves to the "
+           "ro slot and the later 'self.error = read_cap.get_error()' wipes the recorded refusal"),
+    M("unknown-refusal-only-when-immutable", UN,
+      "                if not (given_rw_uri.startswith(ALLEGED_READONLY_PREFIX)\n"
+      "                        or given_rw_uri.startswith(ALLEGED_IMMUTABLE_PREFIX)):\n",
+      "                if deep_immutable and not (given_rw_uri.startswith(ALLEGED_READONLY_PREFIX)\n"
+      "                        or given_rw_uri.startswith(ALLEGED_IMMUTABLE_PREFIX)):\n", "C18.10",
+      note="a different edit with the same effect: in a mutable directory an unprefixed lone write cap is treated as a read cap"),
+    M("unknown-refusal-continues-to-strengthening", UN,
+      "                                                         name, False)\n                    return  # node will be opaque\n",
+      "                                                         name, False)\n"
+      "                    self.ro_uri = ALLEGED_READONLY_PREFIX + given_rw_uri\n"
+      "                    return  # node will be opaque\n", "C18.10",
+      note="the error is kept, but the 'opaque' node publishes the write cap behind 'ro.'"),
+    M("unknown-parse-refusal-only-when-immutable", UN,
+      "            if isinstance(read_cap, uri.UnknownURI):\n                self.error = read_cap.get_error()\n",
+      "            if deep_immutable and isinstance(read_cap, uri.UnknownURI):\n                self.error = read_cap.get_error()\n",
+      "C18.10", note="sibling site (C16.11): 'ro.' + a known write cap, which from_string refuses, is kept in the clear slot"),
+    M("unknown-parse-refusal-falls-through", UN,
+      "                    assert self.rw_uri is None and self.ro_uri is None\n                    return\n",
+      "                    assert self.rw_uri is None and self.ro_uri is None\n", "C18.10",
+      note="sibling site: the return after the parse refusal is lost"),
     # ---- benign
+    M("benign-unknown-prefix-tests-swapped", UN,
+      "                if not (given_rw_uri.startswith(ALLEGED_READONLY_PREFIX)\n"
+      "                        or given_rw_uri.startswith(ALLEGED_IMMUTABLE_PREFIX)):\n",
+      "                if not (given_rw_uri.startswith(ALLEGED_IMMUTABLE_PREFIX)\n"
+      "                        or given_rw_uri.startswith(ALLEGED_READONLY_PREFIX)):\n", None),
+    M("benign-unknown-refusal-nested-ifs", UN,
+      "                if not (given_rw_uri.startswith(ALLEGED_READONLY_PREFIX)\n"
+      "                        or given_rw_uri.startswith(ALLEGED_IMMUTABLE_PREFIX)):\n",
+      "                if not given_rw_uri.startswith(ALLEGED_READONLY_PREFIX) and \\\n"
+      "                        not given_rw_uri.startswith(ALLEGED_IMMUTABLE_PREFIX):\n", None),
+    M("benign-unknown-move-in-else", UN,
+      "                    return  # node will be opaque\n\n                # OTOH, if the single cap already had a prefix",
+      "                    return  # node will be opaque\n                else:\n                    given_ro_uri = given_rw_uri\n"
+      "                    given_rw_uri = None\n\n                # OTOH, if the single cap already had a prefix", None,
+      edits=[(UN, "                given_ro_uri = given_rw_uri\n                given_rw_uri = None\n            elif",
+              "            elif")],
+      note="the move to the ro slot is written as the else branch of the refusal"),
+    M("benign-unknown-parse-error-local", UN,
+      "                self.error = read_cap.get_error()\n                if self.error:\n",
+      "                err = read_cap.get_error()\n                self.error = err\n                if err:\n", None),
+    M("benign-unknown-refusal-returns-none", UN,
+      "                                                         name, False)\n                    return  # node will be opaque\n",
+      "                                                         name, False)\n                    return None\n", None),
     M("benign-readonly-uri-into-temp", MF,
       "    def get_readonly_uri(self):\n        return self._uri.get_readonly().to_string()\n",
       "    def get_readonly_uri(self):\n        ro = self._uri.get_readonly()\n        return ro.to_string()\n", None),
